@@ -736,6 +736,12 @@ fn apply_sack_to_sent_queue(
 impl<'a> Drop for SctpCleanupGuard<'a> {
     fn drop(&mut self) {
         *self.inner.state.lock() = SctpState::Closed;
+        // The association is over for whatever reason (peer ABORT, DTLS closed,
+        // heartbeat timeout, ...), not only through `SctpTransport::close()`:
+        // senders parked in the flow-control wait of `send_data_raw` must see
+        // the Closed state now instead of sleeping until the transport object
+        // is closed or dropped.
+        self.inner.flow_control_notify.notify_waiters();
 
         let channels = self.inner.data_channels.lock();
         for weak_dc in channels.iter() {
@@ -1963,7 +1969,19 @@ impl SctpInner {
             let a_rwnd = buf.get_u32();
             let num_gap_ack_blocks = buf.get_u16();
             let _num_duplicate_tsns = buf.get_u16();
-            let old_rwnd = self.peer_rwnd.swap(a_rwnd, Ordering::SeqCst);
+            // RFC 4960 §6.2.1 D-i: a SACK whose cumulative TSN is behind one already processed
+            // was overtaken on the way; its a_rwnd describes the peer's buffer at an earlier
+            // time and must not replace the newer value (a late zero-window SACK arriving when
+            // nothing is outstanding would otherwise close the window for good).
+            let overtaken = tsn_gt(
+                self.peer_cumulative_tsn_ack.load(Ordering::SeqCst),
+                cumulative_tsn_ack,
+            );
+            let old_rwnd = if overtaken {
+                self.peer_rwnd.load(Ordering::SeqCst)
+            } else {
+                self.peer_rwnd.swap(a_rwnd, Ordering::SeqCst)
+            };
             if tsn_gt(
                 cumulative_tsn_ack,
                 self.peer_cumulative_tsn_ack.load(Ordering::SeqCst),
